@@ -10,7 +10,7 @@ from checks import tsa_common as tc
 PID = 'C27'
 SCHEDULE_DEPENDENT = True
 RULE = ('2-4 simulated threads each execute 1-3 source-line statements on one attribute of one instance of a class built '
-        'with MetaThreadSafeAttributes: reads (x = o.a), plain assignments (o.a = k) and augmented assignments (o.a OP= k, also o.a OP= o.a, '
+        'with MetaThreadSafeAttributes: reads (x = o.a), plain assignments (o.a = k) and augmented assignments (o.a OP= k, also o.a OP= o.a; in part of the runs the object is spelled with a non-ASCII name or reached through a holder, h.o.a / self.h.o.a, '
         'OP from + - * // ** << >> | & ^ %); the scheduler (sticky walk / PCT) may switch at every line and every bytecode of '
         '__get__/__set__ and of the client statements; second stratum: the attribute belongs to an ActiveObjectWithAttributes and the statements of one thread run inside the object\'s event handlers (its own thread) while client threads use the attribute from outside; third stratum: the statements live in helper functions (dst.a += src.a, dst.a += k, dst.a = k, x = src.a), so one source line is executed with objects of two classes that both declare `a`, first by one thread alone, then by 2-3 threads at once (serialisability over both values). Oracle: no statement raises; no deadlock (a thread parked for ever); '
         'serialisability: the final value and every value read are explained by some total order of the executed statements '
@@ -274,6 +274,9 @@ def generate(seed, stratum, tier):
     threads.append(sts)
   sc = {'threads': threads, 'same_names': rng.random() < 0.3,
         'sched': common.draw_sched(rng, grans=('line', 'opcode'), weights=(1, 2), expected_steps=250, policies=('sticky', 'pct'))}
+  if stratum != 'active-object' and rng.random() < 0.3:
+    # how the statements spell the object: a name that does not begin with an ASCII letter, or a path through a holder
+    sc['objname'] = rng.choice(['\u00f6bj', 'h.o', 'self.h.o'])
   if stratum == 'active-object':
     # the documented use: the attribute belongs to an ActiveObjectWithAttributes; the statements of thread 0 are executed
     # by the object's own thread (inside its event handlers, one per posted event), the others by client threads
@@ -495,15 +498,18 @@ def execute(sc, sched):
   sim = common.new_sim(sc, sched, max_steps=150000)
   cls = tc.make_class(['a'])
   o = cls()
-  codes = [tc.compile_script([text(st) for st in sts]) for sts in sc['threads']]
+  objname = sc.get('objname', 'o')
+  codes = [tc.compile_script([text(st).replace('o.a', objname + '.a') for st in sts]) for sts in sc['threads']]
   n = len(sc['threads'])
   reads = [[] for _ in range(n)]
   done = [0] * n
   errors = []
   inflight = {}
+  import types
+  holder = types.SimpleNamespace(o=o)
 
   def client(k):
-    ns = {'o': o, 'x': None}
+    ns = {'o': o, 'x': None, '\u00f6bj': o, 'h': holder, 'self': types.SimpleNamespace(h=holder)}
 
     def _m(i):
       st = sc['threads'][k][i]
